@@ -232,8 +232,24 @@ func wiConfig(c WiCfg, port int, backendURLs []string) *config.Config {
 	return cfg
 }
 
-// startHelios writes the YAML, starts the real binary and waits until it accepts connections
+// startHelios writes the YAML, starts the real binary and waits until it accepts connections.  A start-up that fails
+// because another process grabbed the port in the meantime is retried on a fresh port.
 func startHelios(cfg *config.Config, tag string) (*heliosProc, error) {
+	var hp *heliosProc
+	var err error
+	for attempt := 0; attempt < 6; attempt++ {
+		if attempt > 0 {
+			cfg.Server.Port = freePort()
+		}
+		hp, err = startHeliosOnce(cfg, tag)
+		if err == nil || !strings.Contains(err.Error(), "address already in use") {
+			return hp, err
+		}
+	}
+	return hp, err
+}
+
+func startHeliosOnce(cfg *config.Config, tag string) (*heliosProc, error) {
 	bin := envStr("VERIF_HELIOS_BIN", "")
 	if bin == "" {
 		return nil, fmt.Errorf("VERIF_HELIOS_BIN not set")
@@ -258,7 +274,7 @@ func startHelios(cfg *config.Config, tag string) (*heliosProc, error) {
 	hp := &heliosProc{cmd: cmd, port: cfg.Server.Port, log: lp}
 	exited := make(chan struct{})
 	go func() { cmd.Wait(); close(exited) }()
-	deadline := time.Now().Add(5 * time.Second)
+	deadline := time.Now().Add(8 * time.Second)
 	for time.Now().Before(deadline) {
 		select {
 		case <-exited:
@@ -269,6 +285,13 @@ func startHelios(cfg *config.Config, tag string) (*heliosProc, error) {
 		c, err := net.DialTimeout("tcp", fmt.Sprintf("127.0.0.1:%d", hp.port), 100*time.Millisecond)
 		if err == nil {
 			c.Close()
+			// make sure it is OUR process that listens (it is still running)
+			select {
+			case <-exited:
+				b, _ := os.ReadFile(lp)
+				return nil, fmt.Errorf("helios exited at start-up: %s", string(b))
+			case <-time.After(20 * time.Millisecond):
+			}
 			return hp, nil
 		}
 		time.Sleep(5 * time.Millisecond)
